@@ -103,6 +103,7 @@ type Exec struct {
 	coverOnly bool
 	splitRet bool
 	fnCells  map[int]*Closure
+	cellMeta map[int]Val
 	typeIDs  map[string]int
 	quant    int
 	nonil    int
@@ -333,7 +334,7 @@ func (x *Exec) typeInv(st *State, t types.Type, c []*Term) {
 			}
 		case *types.Pointer:
 			// a non-nil pointer lies in a parameter / global / local block; offsets are small
-			x.assume(st.G, ULE(c[off+1], BV(1<<40, 64)))
+			x.assume(st.G, And(ULE(c[off+1], BV(1<<40, 64)), Implies(Eq(c[off], BV(0, 32)), Eq(c[off+1], BV(0, 64)))))
 		}
 	}
 	if hasSlice(t) && x.quant == 0 {
@@ -817,10 +818,16 @@ func (x *Exec) instr(fr *Frame, st *State, instr ssa.Instruction) {
 			if derivedPtr(i.X) {
 				x.nonil++
 			}
-			fr.vals[i] = Val{C: x.load(st, xv.C, t, i.Pos())}
+			lv := Val{C: x.load(st, xv.C, t, i.Pos())}
 			if derivedPtr(i.X) {
 				x.nonil--
 			}
+			if xv.C[0].Op == "const" {
+				if m, ok := x.cellMeta[int(xv.C[0].U64())]; ok {
+					lv.Fn, lv.If = m.Fn, m.If
+				}
+			}
+			fr.vals[i] = lv
 		case token.NOT:
 			fr.vals[i] = Val{C: []*Term{Not(xv.C[0])}}
 		case token.SUB:
@@ -834,17 +841,22 @@ func (x *Exec) instr(fr *Frame, st *State, instr ssa.Instruction) {
 		t := i.Addr.Type().Underlying().(*types.Pointer).Elem()
 		a := x.value(fr, st, i.Addr)
 		v := x.value(fr, st, i.Val)
-		if v.Fn != nil {
-			// function values are only kept in SSA registers and local cells
-			if cells, id, ok := x.isLocalBlk(st, a.C[0]); ok {
-				_ = cells
-				if x.fnCells == nil {
-					x.fnCells = map[int]*Closure{}
+		if v.Fn != nil || v.If != nil {
+			// static knowledge about function / interface values survives in local cells
+			if _, id, ok := x.isLocalBlk(st, a.C[0]); ok {
+				if x.cellMeta == nil {
+					x.cellMeta = map[int]Val{}
 				}
-				x.fnCells[id] = v.Fn
-				return
+				x.cellMeta[id] = Val{Fn: v.Fn, If: v.If}
+				if v.Fn != nil {
+					if x.fnCells == nil {
+						x.fnCells = map[int]*Closure{}
+					}
+					x.fnCells[id] = v.Fn
+				}
+			} else if v.Fn != nil {
+				x.fail("store of a function value to the heap")
 			}
-			x.fail("store of a function value to the heap")
 		}
 		if derivedPtr(i.Addr) {
 			x.nonil++
